@@ -126,12 +126,15 @@ def ref(spec, value, ctx=None):
 def _ref_kind(kind, opts, spec, value, required, ctx):
     if isinstance(value, Opaque):
         if kind in ("any", "secure"):
-            return (A, value)
+            return (A, value)  # (an object() is truthy)
         return (REJ, "opaque object")
     if kind == "any":
         return (A, value)
     if kind == "secure":
-        return (A, value)  # SecureField declares no constraint of its own
+        # SecureField declares no type constraint; an empty secret is stored as "unset", so it cannot be required
+        if required and not value:
+            return (REJ, "required and empty")
+        return (A, value)
     if kind in ("str", "loglevel", "appmode"):
         o = dict(opts)
         if kind == "loglevel":
